@@ -3,7 +3,6 @@ import MythVerif.Proofs.WsQueueTsoTac
 namespace MythVerif.WsqTso
 open MythVerif.Wsq
 
-set_option maxHeartbeats 4000000 in
 theorem t_tp2 (s s' : St) (p : Pid) (e b) : Inv s → s.tpc p = .tp2 e b → stepT s p = some s' → Inv s' := by
   intro h heq hs
   have hb := h.tbufE p (by simp [heq, mayBuf])
@@ -15,7 +14,6 @@ theorem pu2_viewBase (buf : List Sto) (ptr : Int → Option Elem) (e : Elem) (t 
     (h : Pu2Shape buf ptr e t) : viewBase buf base = base := by
   rcases h with ⟨h1, _⟩ | h1 <;> simp [h1, viewBase]
 
-set_option maxHeartbeats 4000000 in
 theorem t_tp3 (s s' : St) (p : Pid) (e) : Inv s → s.tpc p = .tp3 e → stepT s p = some s' → Inv s' := by
   intro h heq hs
   have hsh := h.tp3 p e heq
@@ -42,7 +40,6 @@ theorem t_tp3 (s s' : St) (p : Pid) (e) : Inv s → s.tpc p = .tp3 e → stepT s
       exact htp4 q ok hq
   tso_goalsT h p
 
-set_option maxHeartbeats 4000000 in
 theorem t_tp4 (s s' : St) (p : Pid) (ok) : Inv s → s.tpc p = .tp4 ok → stepT s p = some s' → Inv s' := by
   intro h heq hs
   have hcfg := h.cfg
